@@ -64,6 +64,16 @@ def values():
     V.append(("array-collide", "float64 [[0,5e-324],[5e-324,0]]", lambda: np.array([[0.0, 5e-324], [5e-324, 0.0]])))
     V.append(("array-collide", "float64 [[0,1],[1,0]]", lambda: np.array([[0.0, 1.0], [1.0, 0.0]])))
     V.append(("array-collide", "complex128 [[0,1],[1,0]]", lambda: np.array([[0, 1], [1, 0]], dtype=np.complex128)))
+    # arrays that are not C-contiguous: transposed views, Fortran order, negative strides, sliced views
+    base_c = (np.arange(6).reshape(2, 3) - 1) * (0.5 - 0.25j) + 1j
+    V.append(("array-layout", "complex 3x2 transposed view", lambda: ((np.arange(6).reshape(2, 3) - 1) * (0.5 - 0.25j) + 1j).T))
+    V.append(("array-layout", "complex 2x3 conj().T of 3x2", lambda: ((np.arange(6).reshape(3, 2) + 1) * (1 + 2j)).conj().T))
+    V.append(("array-layout", "complex 2x3 Fortran order", lambda: np.asfortranarray((np.arange(6).reshape(2, 3) + 2) * (1 - 1j))))
+    V.append(("array-layout", "complex 3x2 reversed rows", lambda: ((np.arange(6).reshape(3, 2) + 1) * (2 + 1j))[::-1]))
+    V.append(("array-layout", "float 3x2 transposed view", lambda: (np.arange(6, dtype=np.float64).reshape(2, 3) - 2.5).T))
+    V.append(("array-layout", "float 2x2 strided view", lambda: (np.arange(16, dtype=np.float64).reshape(4, 4) / 8)[::2, 1::2]))
+    V.append(("array-layout", "int 2x3 Fortran order", lambda: np.asfortranarray(np.arange(6, dtype=np.int64).reshape(2, 3) - 3)))
+    V.append(("array-layout", "int 3x1 reversed column", lambda: np.arange(3, dtype=np.int64).reshape(3, 1)[::-1]))
     V.append(("array-edge", "int32", lambda: np.array([[1, -2], [3, 4]], dtype=np.int32)))
     V.append(("array-edge", "float32", lambda: np.array([[0.5, -2.25]], dtype=np.float32)))
     syms = [a, 2 * a, a + b, a - 2 * b, a ** 2, a / b, 1 / a, a * b - 1, alpha + a, 0.1 * a, a / 3, 1e-7 * e, a_1 - a, x1 * 2.5 + alpha, -a, (a + b) / (a - 2), 1.5e-10 * alpha * e]
